@@ -59,6 +59,25 @@ type DocCase struct {
 	Doc xmlt.Node `json:"doc"`
 }
 
+// The specification's limits are tokens like every other value (TLC integers end at 2^31 - 1): the two largest stand for
+// limits beyond 32 bits, in the API value and in the text of the wire documents alike.
+var bigLimits = map[int]int{2147483646: 4294967303, 2147483647: 9223372036854775807}
+
+func limConc(l int) int {
+	if v, ok := bigLimits[l]; ok {
+		return v
+	}
+	return l
+}
+func limAbs(l int) int {
+	for k, v := range bigLimits {
+		if v == l {
+			return k
+		}
+	}
+	return l
+}
+
 func cAbsTM(c *xmlt.Conc, t carddav.TextMatch) CTM {
 	return CTM{c.A(t.Text), t.NegateCondition, string(t.MatchType)}
 }
@@ -82,16 +101,16 @@ func cAbsQ(c *xmlt.Conc, q *carddav.AddressBookQuery) CQ {
 		out.Filters = append(out.Filters, o)
 	}
 	if q.Limit > 0 {
-		out.Limittext = strconv.Itoa(q.Limit)
+		out.Limittext = strconv.Itoa(limAbs(q.Limit))
 	}
-	out.Limit = q.Limit
+	out.Limit = limAbs(q.Limit)
 	return out
 }
 func cConcTM(c *xmlt.Conc, t CTM) carddav.TextMatch {
 	return carddav.TextMatch{Text: c.C(t.Text), NegateCondition: t.Neg, MatchType: carddav.MatchType(t.Mt)}
 }
 func cConcQ(c *xmlt.Conc, q CQ) *carddav.AddressBookQuery {
-	out := &carddav.AddressBookQuery{FilterTest: carddav.FilterTest(q.Test), Limit: q.Limit}
+	out := &carddav.AddressBookQuery{FilterTest: carddav.FilterTest(q.Test), Limit: limConc(q.Limit)}
 	out.DataRequest.AllProp = q.Allprop
 	for _, p := range q.Props {
 		out.DataRequest.Props = append(out.DataRequest.Props, c.C(p))
